@@ -33,7 +33,7 @@ def _m(d):
 
 
 def normfit_mu_sigma(mu_norm, sigma_norm):
-    s2 = mp.log(1 + (sigma_norm / mu_norm) ** 2)
+    s2 = mp.log1p((sigma_norm / mu_norm) ** 2)
     return mp.log(mu_norm) - s2 / 2, mp.sqrt(s2)
 
 
